@@ -4,7 +4,7 @@ import vlib, gen, impl
 from props.c01 import VERSIONS, excluded
 
 MODULES = ['Hl7.Props.C08']
-THEOREMS = ['Hl7.Msg.C08_order', 'Hl7.Msg.C03_flat_keeps_all', 'Hl7.Msg.place_flat', 'Hl7.Msg.finish_flat', 'Hl7.Msg.C03_witness_drop']
+THEOREMS = ['Hl7.Msg.C08_order', 'Hl7.Msg.C03_flat_keeps_all', 'Hl7.Msg.place_flat', 'Hl7.Msg.finish_flat', 'Hl7.Msg.C03_witness_drop', 'Hl7.Msg.C03_dropped_only_if_unplaceable', 'Hl7.Msg.place_dropped_unplaceable']
 DEF = '|^&~\\'
 
 
